@@ -44,7 +44,7 @@ BUDGET_S = {"quick": 400, "thorough": 3000}
 
 
 def streams(ctx):
-    return [("invocations", ctx.scale(640, 6000))]
+    return [("invocations", ctx.scale(640, 6000)), ("ascii_locale", ctx.scale(48, 500))]
 
 
 def gen_pair(r):
@@ -171,7 +171,56 @@ def locate(tree, out_path):
     return owner, None
 
 
+def run_ascii_locale(ctx, P, stream, idx):
+    """the same request where the interpreter's preferred encoding is ASCII (LC_ALL=C, UTF-8 mode off) and the modules hold a
+    non-ASCII character somewhere: the command may refuse (it cannot read or cannot write such a file) - then both files are
+    byte for byte what they were; nothing else in the output file may change, least of all everything"""
+    r = ctx.rng(stream, idx)
+    inp_src, out_src, meta = gen_pair(r)
+    extra = r.choice(('GREETING = "caf\u00e9"\n', "# na\u00efve comment\n", 'UNIT: str = "\u00b5m"\n', "\u03bb_rate = 0.5\n"))
+    where = r.choice(("inp", "out", "both"))
+    if where in ("inp", "both"):
+        inp_src += extra
+    if where in ("out", "both"):
+        out_src += extra
+    in_name = r.choice(meta["A"])[0]
+    out_name = r.choice(meta["B"])[0]
+    d = tempfile.mkdtemp(prefix="vcdd-c13-")
+    try:
+        for fn, text in (("inp.py", inp_src), ("out.py", out_src)):
+            with open(os.path.join(d, fn), "w", encoding="utf-8", newline="") as f:
+                f.write(text)
+        argv = [sys.executable, "-m", "cdd", "sync_properties", "--input-filename", "inp.py", "--input-param", "A." + in_name,
+                "--output-filename", "out.py", "--output-param", "B." + out_name]
+        env = dict(os.environ, PYTHONPATH=REPO, PYTHONDONTWRITEBYTECODE="1", LC_ALL="C", LANG="C", PYTHONUTF8="0",
+                   PYTHONCOERCECLOCALE="0")
+        env.pop("PYTHONIOENCODING", None)
+        pr = subprocess.run(argv, cwd=d, env=env, stdout=subprocess.PIPE, stderr=subprocess.PIPE, timeout=300)
+        P.monitor("sync_properties.run")
+        P.monitor("ascii-locale.run")
+        with open(os.path.join(d, "out.py"), "rb") as f:
+            out_after = f.read()
+        with open(os.path.join(d, "inp.py"), "rb") as f:
+            inp_after = f.read()
+    finally:
+        shutil.rmtree(d, ignore_errors=True)
+    feats = "ascii-locale,non-ascii-in=%s" % where
+    P.case({"inp": inp_src, "out": out_src, "argv": argv[4:]}, klass=feats, sample={"where": where, "added": extra,
+                                                                                  "exit": pr.returncode})
+    w = {"stream": stream, "idx": idx, "input": inp_src, "output_before": out_src,
+         "output_after": out_after.decode("utf-8", "replace"), "stderr": pr.stderr.decode("utf-8", "replace")[-400:]}
+    P.count("ascii-locale.exit-%s" % ("0" if pr.returncode == 0 else "nonzero"))
+    if inp_after != inp_src.encode("utf-8"):
+        P.deviation("sync_properties.input-file-modified|" + feats, "the input file changed", w)
+    if pr.returncode != 0 and out_after != out_src.encode("utf-8"):
+        P.deviation("sync_properties.failed-but-output-changed|" + feats,
+                    "sync_properties exited %d and the output file changed from %d to %d bytes" % (
+                        pr.returncode, len(out_src.encode("utf-8")), len(out_after)), w)
+
+
 def run_case(ctx, P, stream, idx):
+    if stream == "ascii_locale":
+        return run_ascii_locale(ctx, P, stream, idx)
     r = ctx.rng(stream, idx)
     inp_src, out_src, meta = gen_pair(r)
     evalmode = r.random() < 0.2
